@@ -28,6 +28,7 @@ RULE = ("Each run = one generated symbolic metric (dim 2/3/4; diagonal, "
         "was computed. Distinct = distinct (dim, family, simplify, request "
         "order).")
 PROBES = ['nondiagonal_metric', 'simplify_true', 'simplify_false',
+          'special_family',
           'riemann_down_from_cached_uddd', 'riemann_down_direct',
           'ricci_from_cached_uddd', 'ricci_direct', 'dim2', 'dim3', 'dim4',
           'repeated_request']
@@ -66,8 +67,30 @@ def _entry(g, dim, kind, diag, sign):
             'sign': sign}
 
 
+SPECIAL = ['double_null2', 'ppwave4', 'radiation_flrw4', 'zero_minor3',
+           'reissner_nordstrom4', 'kasner4', 'schwarzschild4', 'sphere2',
+           'null_first3']
+
+
 def generate(rng, tier):
     g = rng.child('c15')
+    if g.chance(0.2):
+        # classic metrics with special structure (null coordinates, vanishing
+        # leading minors, R = 0 with Ricci != 0, true vacuum)
+        name = g.pick(SPECIAL)
+        dim = int(name[-1])
+        simp = (name in ('double_null2', 'sphere2') and g.chance(0.5)) or (
+            name == 'reissner_nordstrom4' and g.chance(0.15))
+        ops = [{'op': 'GET', 'key': g.pick(KEYS)}
+               for _ in range(g.randint(3, 8))]
+        if g.chance(0.7):
+            ops.append({'op': 'GET', 'key': 'Einstein_down'})
+        pts = [[[g.randint(1, 9), g.pick([2, 3, 4, 5, 7])]
+                for _ in range(dim)] for _ in range(3)]
+        return {'config': {'dim': dim, 'family': 'special:' + name,
+                           'special': name, 'diag': [], 'off': {},
+                           'conf': None, 'simplify': bool(simp),
+                           'points': pts}, 'ops': ops}
     dim = g.weighted([(2, 3), (3, 4), (4, 3)])
     family = g.weighted([('diag', 3), ('nondiag', 5), ('conformal', 2)])
     lorentz = (dim == 4) or g.chance(0.3)
@@ -118,6 +141,12 @@ def fixup(run):
 
 def simplify(run):
     cfg = run['config']
+    if cfg.get('special'):
+        if cfg['simplify']:
+            c = copy.deepcopy(run); c['config']['simplify'] = False; yield c
+        if len(cfg['points']) > 1:
+            c = copy.deepcopy(run); c['config']['points'].pop(); yield c
+        return
     if cfg['simplify']:
         c = copy.deepcopy(run); c['config']['simplify'] = False; yield c
     for k in sorted(cfg['off']):
@@ -133,7 +162,48 @@ def simplify(run):
 
 
 # ---------------------------------------------------------------------------
+def special_metric(name, sp):
+    t, x, y, z = sp.symbols('t x y z')
+    if name == 'double_null2':
+        u, v = sp.symbols('u v')
+        w = u * v / 4 + u
+        return [u, v], sp.Matrix([[0, -sp.exp(2 * w) / 2],
+                                  [-sp.exp(2 * w) / 2, 0]])
+    if name == 'sphere2':
+        th, ph = sp.symbols('theta phi')
+        return [th, ph], sp.Matrix([[1, 0], [0, sp.sin(th) ** 2]])
+    if name == 'ppwave4':
+        u, v = sp.symbols('u v')
+        H = (x ** 2 - y ** 2) * sp.cos(u) + x * y
+        return [v, u, x, y], sp.Matrix([[0, 1, 0, 0], [1, H, 0, 0],
+                                        [0, 0, 1, 0], [0, 0, 0, 1]])
+    if name == 'radiation_flrw4':
+        return [t, x, y, z], sp.diag(-1, t, t, t)
+    if name == 'kasner4':
+        p1, p2, p3 = sp.Rational(-1, 3), sp.Rational(2, 3), sp.Rational(2, 3)
+        return [t, x, y, z], sp.diag(-1, t ** (2 * p1), t ** (2 * p2),
+                                     t ** (2 * p3))
+    if name == 'zero_minor3':
+        # g_00 g_11 - g_01^2 = 0 everywhere, det g != 0
+        return [x, y, z], sp.Matrix([[1 + x ** 2, 1 + x ** 2, 0],
+                                     [1 + x ** 2, 1 + x ** 2, y + 2],
+                                     [0, y + 2, 1]])
+    if name == 'null_first3':
+        return [x, y, z], sp.Matrix([[0, 1 + y ** 2, 0],
+                                     [1 + y ** 2, x, 0],
+                                     [0, 0, 1 + x ** 2]])
+    r, th, ph = sp.symbols('r theta phi')
+    if name == 'reissner_nordstrom4':
+        f = 1 - 2 / r + sp.Rational(1, 4) / r ** 2
+    else:
+        f = 1 - sp.Rational(1, 2) / r
+    return [t, r, th, ph], sp.diag(-f, 1 / f, r ** 2,
+                                   r ** 2 * sp.sin(th) ** 2)
+
+
 def build_metric(cfg, sp):
+    if cfg.get('special'):
+        return special_metric(cfg['special'], sp)
     dim = cfg['dim']
     xs = sp.symbols(' '.join(COORDS[:dim] if dim == 4 else COORDS[1:dim + 1]))
     if dim == 1:
@@ -270,6 +340,9 @@ def execute(run):
     xs, g = build_metric(cfg, sp)
     dim = cfg['dim']
     probe(f'dim{dim}')
+    if cfg.get('special'):
+        probe('special_family')
+        probe('special:' + cfg['special'])
     nondiag = any(g[i, j] != 0 for i in range(dim) for j in range(dim)
                   if i != j)
     if nondiag:
